@@ -20,10 +20,10 @@ CHECK_DEADLOCK FALSE
 """
 
 
-def consts(universe, minpts, maxpts, off, emit, initall=True, points=False, curv=False):
+def consts(universe, minpts, maxpts, off, emit, initall=True, points=False, curv=False, rnd=False):
     return (f"CONSTANTS\n U <- {universe}\n MinPts = {minpts}\n MaxPts = {maxpts}\n Off <- {off}\n "
             f"EmitOn = {'TRUE' if emit else 'FALSE'}\n InitAll = {'TRUE' if initall else 'FALSE'}\n "
-            f"WithPoints = {'TRUE' if points else 'FALSE'}\n WithCurv = {'TRUE' if curv else 'FALSE'}\n")
+            f"WithPoints = {'TRUE' if points else 'FALSE'}\n WithCurv = {'TRUE' if curv else 'FALSE'}\n WithRound = {'TRUE' if rnd else 'FALSE'}\n")
 
 
 def t1(ctx, universe, maxpts, off="Zero", timeout=1500):
@@ -39,9 +39,9 @@ def t1(ctx, universe, maxpts, off="Zero", timeout=1500):
     return res
 
 
-def emit(ctx, universe, maxpts, off="Zero", simulate=None, depth=None, timeout=1500, minpts=4, points=False, curv=False):
+def emit(ctx, universe, maxpts, off="Zero", simulate=None, depth=None, timeout=1500, minpts=4, points=False, curv=False, rnd=False):
     res = tlc.run("MC_Convex3", CFG_EMIT + consts(universe, minpts, maxpts, off, True, initall=not simulate,
-                                                   points=points, curv=curv),
+                                                   points=points, curv=curv, rnd=rnd),
                   timeout=timeout, simulate=simulate, depth=depth, workers=4 if simulate else None)
     ctx.tlc(res, f"Convex3 emission U={universe} MaxPts={maxpts} Off={off}" + (f" simulate={simulate}" if simulate else ""))
     seen = {}
@@ -52,14 +52,21 @@ def emit(ctx, universe, maxpts, off="Zero", simulate=None, depth=None, timeout=1
             r["mem"] = fr["p"]["mem"]
         if "c" in fr:
             r["curv"] = fr["c"]
+        if "d" in fr:
+            r["dq"] = fr["d"]["q"]
+            r["d2"] = fr["d"]["d2"]
         seen.setdefault(json.dumps(r["v"]), r)
     return list(seen.values())
 
 
 def build_cases(recs, which, tier, seed, n_placements, n_perms=1):
     cases = []
+    from fractions import Fraction as F
+    from .placement import Placement
+    # a tiny absolute scale with an offset of a few diameters: absolute tolerances (1e-8) must not matter
+    nano = Placement(s=F(1, 10 ** 9), q=(1, 2, 2, 0), t=(F(7, 10 ** 9), F(-4, 10 ** 9), F(5, 10 ** 9)), name="nano_rot9_offset")
     for r in recs:
-        pal = palette(7, tier)
+        pal = palette(7, tier) + [nano]
         start = h(r["v"], seed)
         chosen = [pal[0]] + [pal[1:][(start + j) % (len(pal) - 1)] for j in range(min(n_placements, len(pal) - 1))]
         rnd = random.Random(start)
